@@ -12,6 +12,10 @@ def register(reg):
     register_virtual(reg)
     register_simple_fields(reg)
     register_numbers(reg)
+    register_net(reg)
+    register_url(reg)
+    register_filename(reg)
+    register_hostname(reg)
     reg.refine("fields.string_field:StringField._validate", "core:Field._validate",
                defs={"accepts_type": (["f", "r"], STR_ACCEPTS)},
                returns="str",
@@ -25,6 +29,97 @@ def register(reg):
                    "C05.rejected-only-if-a-constraint-fails": "not (typeis(value, 'str') and accepts_type(self, %s))" % NORMAL,
                    "C05.deterministic-and-pure": "heap_unchanged()",
                })
+
+
+def register_net(reg):
+    """IPv4AddressField / IPv4NetworkField._validate: the StringField normal form, then the external parser, then (networks)
+    the prefix bounds; the stored value is the parser's canonical text.  Stated directly over the parser predicates (no
+    class-local definition of accepts_type: the super() call's clauses must keep meaning the StringField constraints)."""
+    C = reg.contract
+    base = reg.contracts["core:Field._validate"]
+    STR_OK = "typeis(value, 'str') and accepts_type(self, %s)" % NORMAL
+    common = dict(params=dict(base.params), returns="str", requires=dict(base.requires), modifies=list(base.modifies), base="core:Field._validate",
+                  assumes={"A.option-types": "typeis(self.transform_case, 'opt:str') and (self.transform_case is None or self.transform_case == 'lower' or self.transform_case == 'upper')"})
+    C("fields.net_field:IPv4AddressField._validate",
+      ensures={"C05.stored-value-is-the-canonical-address-text": "typeis(value, 'str') and ipaddr_ok(%s) and result == ipaddr_text(%s)" % (NORMAL, NORMAL),
+               "C05.canonical-text-is-accepted-again-unchanged": "ipaddr_ok(result) and ipaddr_text(result) == result",
+               "C11.required-nonempty": "len(result) > 0",
+               "C05.deterministic-and-pure": "heap_unchanged()"},
+      raises={"C05.rejection-is-a-value-error": "exc_is(ValueError)",
+              "C05.rejected-only-if-a-constraint-fails": "not (%s and ipaddr_ok(%s))" % (STR_OK, NORMAL),
+              "C05.deterministic-and-pure": "heap_unchanged()"}, **common)
+    LO = "(self.min_prefix_len is None or ipnet_prefixlen(%s) >= self.min_prefix_len)"
+    HI = "(self.max_prefix_len is None or ipnet_prefixlen(%s) <= self.max_prefix_len)"
+    C("fields.net_field:IPv4NetworkField._validate",
+      ensures={"C05.stored-value-is-the-canonical-network-text": "typeis(value, 'str') and ipnet_ok(%s) and result == ipnet_text(%s)" % (NORMAL, NORMAL),
+               "C05+C01.prefix-length-within-bounds": (LO + " and " + HI) % (NORMAL, NORMAL),
+               "C05+C01.stored-prefix-length-within-bounds": (LO + " and " + HI) % ("result", "result"),
+               "C05.canonical-text-is-accepted-again-unchanged": "ipnet_ok(result) and ipnet_text(result) == result",
+               "C11.required-nonempty": "len(result) > 0",
+               "C05.deterministic-and-pure": "heap_unchanged()"},
+      raises={"C05.rejection-is-a-value-error": "exc_is(ValueError)",
+              "C05.rejected-only-if-a-constraint-fails": "not (%s and ipnet_ok(%s) and %s and %s)" % (STR_OK, NORMAL, LO % NORMAL, HI % NORMAL),
+              "C05.deterministic-and-pure": "heap_unchanged()"}, **common)
+
+
+def register_hostname(reg):
+    """HostnameField._validate: an IPv4 address is stored in canonical form when addresses are allowed (refused otherwise);
+    any other text is resolved (resolve=True) or must look like a DNS / NetBIOS name and is kept as it is"""
+    base = reg.contracts["core:Field._validate"]
+    N = NORMAL
+    STR_OK = "typeis(value, 'str') and accepts_type(self, %s)" % N
+    LOOKS = "(regex_match(self.HOSTNAME_REGEX, %s) or regex_match(self.NETBIOS_REGEX, %s))" % (N, N)
+    ACCEPT = "ite(ipaddr_ok(%s), truthy(self.allow_ipv4), ite(truthy(self.resolve), dns_ok(%s), %s))" % (N, N, LOOKS)
+    reg.contract("fields.net_field:HostnameField._validate",
+                 params=dict(base.params), returns="str", requires=dict(base.requires), modifies=list(base.modifies), base="core:Field._validate",
+                 assumes={"A.option-types": "typeis(self.transform_case, 'opt:str') and (self.transform_case is None or self.transform_case == 'lower' or self.transform_case == 'upper')"},
+                 ensures={"C05.accepted-only-if-the-constraints-hold": "typeis(value, 'str') and " + ACCEPT,
+                          "C05.an-address-is-stored-in-canonical-form": "implies(ipaddr_ok(%s), result == ipaddr_text(%s))" % (N, N),
+                          "C05.a-resolved-name-is-stored-as-its-address": "implies(not ipaddr_ok(%s) and truthy(self.resolve), result == dns_name(%s))" % (N, N),
+                          "C05.a-name-is-kept-as-it-is": "implies(not ipaddr_ok(%s) and not truthy(self.resolve), result == %s)" % (N, N),
+                          "C05.deterministic-and-pure": "heap_unchanged()"},
+                 raises={"C05.rejection-is-a-value-error": "exc_is(ValueError)",
+                         "C05.rejected-only-if-a-constraint-fails": "not (%s and %s)" % (STR_OK, ACCEPT),
+                         "C05.deterministic-and-pure": "heap_unchanged()"})
+
+
+def register_filename(reg):
+    """FilenameField._validate (inherited by IncludeField): empty text passes as it is; a relative name is resolved against
+    startdir when one is given; then the existence requirement of the field is checked against the file system"""
+    base = reg.contracts["core:Field._validate"]
+    N = NORMAL
+    STR_OK = "typeis(value, 'str') and accepts_type(self, %s)" % N
+    P = "ite(len(%s) > 0 and not path_isabs(%s) and truthy(self.startdir), path_abspath(expanduser(path_join(self.startdir, %s))), %s)" % (N, N, N, N)
+    REQ = ("(self.exists is not True or fs_exists(%s)) and (self.exists is not False or not fs_exists(%s))"
+           " and implies(self.exists == 'dir', fs_isdir(%s)) and implies(self.exists == 'file', fs_isfile(%s))") % (P, P, P, P)
+    ACCEPT = "(len(%s) == 0 or (%s))" % (N, REQ)
+    reg.contract("fields.file_field:FilenameField._validate",
+                 params=dict(base.params), returns="str", requires=dict(base.requires), modifies=list(base.modifies), base="core:Field._validate",
+                 assumes={"A.option-types": "typeis(self.transform_case, 'opt:str') and (self.transform_case is None or self.transform_case == 'lower' or self.transform_case == 'upper')"
+                                              " and typeis(self.transform_strip, 'none|bool|str')"},
+                 ensures={"C05.stored-value-is-the-resolved-name": "typeis(value, 'str') and result == " + P,
+                          "C05+C01.accepted-only-if-the-existence-requirement-holds": ACCEPT,
+                          "C05.deterministic-and-pure": "heap_unchanged() and fs_same()"},
+                 raises={"C05.rejection-is-a-value-error": "exc_is(ValueError)",
+                         "C05.rejected-only-if-a-constraint-fails": "not (%s and %s)" % (STR_OK, ACCEPT),
+                         "C05.deterministic-and-pure": "heap_unchanged() and fs_same()"})
+
+
+def register_url(reg):
+    """UrlField._validate: the StringField normal form, kept as it is, accepted exactly when the external parser takes it
+    and finds a scheme"""
+    base = reg.contracts["core:Field._validate"]
+    STR_OK = "typeis(value, 'str') and accepts_type(self, %s)" % NORMAL
+    URL_OK = "url_ok(%s) and len(url_scheme(%s)) > 0" % (NORMAL, NORMAL)
+    reg.contract("fields.url_field:UrlField._validate",
+                 params=dict(base.params), returns="str", requires=dict(base.requires), modifies=list(base.modifies), base="core:Field._validate",
+                 assumes={"A.option-types": "typeis(self.transform_case, 'opt:str') and (self.transform_case is None or self.transform_case == 'lower' or self.transform_case == 'upper')"},
+                 ensures={"C05.stored-value-is-the-normal-form": "typeis(value, 'str') and result == " + NORMAL,
+                          "C05+C01.accepted-only-with-a-scheme": URL_OK,
+                          "C05.deterministic-and-pure": "heap_unchanged()"},
+                 raises={"C05.rejection-is-a-value-error": "exc_is(ValueError)",
+                         "C05.rejected-only-if-a-constraint-fails": "not (%s and %s)" % (STR_OK, URL_OK),
+                         "C05.deterministic-and-pure": "heap_unchanged()"})
 
 
 def register_numbers(reg):
